@@ -73,8 +73,10 @@ func (cr *keyStore) load() error {
 
 	if len(cr.keyID) != 0 {
 		entry, err = ks.GetKey(cr.keyID)
+	} else if entries := ks.Entries(); len(entries) != 0 {
+		entry = entries[0]
 	} else {
-		entry, err = ks.Entries()[0], nil
+		err = errorchain.NewWithMessage(keystore.ErrNoSuchKey, "key store contains no keys")
 	}
 
 	if err != nil {
